@@ -435,11 +435,25 @@ example : validPkg wLocalPkg = false ∧
     region .enum wLocalPkg { types := ["int"], file := "b.go", cmdline := "shoot enum -file=b.go -type=int" } = .WF ∧
     region .new wLocalPkg { types := ["Elem"], file := "b.go", cmdline := "shoot new -file=b.go -type=Elem" } = .WF := by decide
 
-/-- without `-file` the function-local struct `row` is accepted by name and gets the dot-file `.shootnew._row.go` -/
-theorem C16_F_nonpkg_type_witness_local :
-    region .new wLocalPkg { types := ["row"], cmdline := "shoot new -type=row" } = .F_nonpkg_type ∧
+/-- repaired in /repo 1819261 (`new` no longer descends into function bodies): the function-local struct `row` is unknown to
+    `new` - named explicitly it is a missing type (diagnostic, exit 1, as the specification demands), and `-type=*` / `-file=`
+    pass it by -/
+theorem C16_local_type_new_fixed :
+    run .new wLocalPkg { types := ["row"], cmdline := "shoot new -type=row" } = .stop .fatal ∧
     spec .new wLocalPkg { types := ["row"], cmdline := "shoot new -type=row" } = some (.rejected ["row"]) ∧
-    run .new wLocalPkg { types := ["row"], cmdline := "shoot new -type=row" }
+    meets (run .new wLocalPkg { types := ["row"], cmdline := "shoot new -type=row" }) (.rejected ["row"]) = true ∧
+    run .new wLocalPkg { types := ["User", "row"], cmdline := "shoot new -type=User,row" } = .stop .fatal ∧
+    run .new wLocalPkg { file := "b.go", cmdline := "shoot new -file=b.go" } = .done [] [] true ∧
+    spec .new wLocalPkg { file := "b.go", cmdline := "shoot new -file=b.go" } = some (.files []) ∧
+    run .new wLocalPkg { types := ["*"], sep := true, cmdline := "shoot new -type=* -sep" }
+      = .done [(⟨"", some "user"⟩, ["User"])] [⟨"", some "user"⟩] false := by decide
+
+/-- the other sub-commands still walk into function bodies: without `-file`, `map` accepts the function-local struct `row`
+    by name and writes the dot-file `.shootmap._row.go` for it -/
+theorem C16_F_nonpkg_type_witness_local :
+    region .map wLocalPkg { types := ["row"], cmdline := "shoot map -type=row" } = .F_nonpkg_type ∧
+    spec .map wLocalPkg { types := ["row"], cmdline := "shoot map -type=row" } = some (.rejected ["row"]) ∧
+    run .map wLocalPkg { types := ["row"], cmdline := "shoot map -type=row" }
       = .done [(⟨"", some "_row"⟩, ["row"])] [⟨"", some "_row"⟩] false := by decide
 
 /-- `enum -type=int` generates for the predeclared type `int` because a constant is declared with it -/
